@@ -305,6 +305,75 @@ impl C17 {
     }
 }
 
+impl C17 {
+    /// "fails ... if both legs name the same pool": one pool's genuine accounts in both legs, opposite directions
+    /// (X -> Y -> X), in the state as it is and - on a copy - with the price put exactly on the start of the current
+    /// tick array in the shifted state (then the two legs start in different arrays, and the lower one may not exist).
+    fn same_pool_twice(&self, v_ix: &rt::Ix, pre: &Ledger, idx: usize, cov: &mut Coverage, out: &mut Vec<Violation>) {
+        if let Some(d) = same_pool_twice_accepted(v_ix, pre, cov) {
+            out.push(viol("accepted_same_pool_twice", idx, d));
+        }
+    }
+}
+
+/// shared with C15 ("two distinct pools"): Some(description) when a two-hop naming one pool in both legs goes through
+pub fn same_pool_twice_accepted(v_ix: &rt::Ix, pre: &Ledger, cov: &mut Coverage) -> Option<String> {
+    {
+        let c = wpix::decode(v_ix)?;
+        let a = wpix::two_hop_args(&c);
+        let lg = legs(&c, pre)?;
+        for (which, sa, wk, pool) in [("one", &lg.sa1, lg.w1, &lg.s1), ("two", &lg.sa2, lg.w2, &lg.s2)] {
+            if sa.owner_a == Pubkey::default() || sa.owner_b == Pubkey::default() || pool.tick_spacing >= 32768 {
+                continue;
+            }
+            let sp = pool.tick_spacing;
+            let start = crate::gen::ta_start(pool.tick_current_index, sp);
+            let mut states: Vec<(&str, Ledger, decode::Pool)> = vec![("as it is", pre.clone(), pool.clone())];
+            if start > decode::MIN_TICK && start - 1 >= decode::MIN_TICK {
+                // shifted state on the array boundary: price(start), tick start - 1
+                let mut f = pre.clone();
+                if let Some(acc) = f.accts.get_mut(&wk) {
+                    let mut d = (*acc.data).clone();
+                    // sqrt_price at 65..81, tick_current_index at 81..85 (after discriminator, config, bump, spacing, seed, rates, liquidity)
+                    d[65..81].copy_from_slice(&crate::model::sqrt_price_of_tick(start).to_le_bytes());
+                    d[81..85].copy_from_slice(&(start - 1).to_le_bytes());
+                    acc.data = std::rc::Rc::new(d);
+                }
+                if let Some(p2) = f.data(&wk).and_then(decode::pool) {
+                    if p2.tick_current_index == start - 1 && p2.sqrt_price == crate::model::sqrt_price_of_tick(start) {
+                        states.push(("shifted onto the start of its tick array", f, p2));
+                    }
+                }
+            }
+            for (label, f, p) in states {
+                for d in [true, false] {
+                    let t = ix::TwoHopAccounts {
+                        one: sa.pool.clone(),
+                        two: sa.pool.clone(),
+                        authority: lg.auth,
+                        owner_one_a: sa.owner_a,
+                        owner_one_b: sa.owner_b,
+                        owner_two_a: sa.owner_a,
+                        owner_two_b: sa.owner_b,
+                        tick_arrays_one: crate::gen::swap_tick_arrays(&p, &wk, d),
+                        tick_arrays_two: crate::gen::swap_tick_arrays(&p, &wk, !d),
+                    };
+                    let args = ix::TwoHopArgs { amount: a.amount.clamp(1, 1_000_000), other_amount_threshold: 0, amount_specified_is_input: true, a_to_b_one: d, a_to_b_two: !d, sqrt_price_limit_one: 0, sqrt_price_limit_two: 0 };
+                    let ixn = if lg.v2 { ix::two_hop_swap_v2(&t, &args) } else { ix::two_hop_swap(&t, &args) };
+                    let mut ff = f.clone();
+                    let r = run(&mut ff, ixn);
+                    cov.probe("same_pool_twice_variants");
+                    cov.eval(format!("{}|same_pool_twice|{}|ok={}", c.name(), label, r.ok));
+                    if r.ok {
+                        return Some(format!("{} succeeds with pool {} ({}) in both legs (state {}, first leg a_to_b={})", c.name(), which, wk, label, d));
+                    }
+                }
+            }
+        }
+        None
+    }
+}
+
 impl Monitor for C17 {
     fn name(&self) -> &'static str {
         "C17"
@@ -326,6 +395,9 @@ impl Monitor for C17 {
         self.check(ixn, ev.pre, ev.out.ok, if ev.out.ok { Some(ev.post) } else { None }, code, ev.idx, cov, &mut out);
         if ev.out.ok && out.is_empty() && ev.salt % 2 == 0 {
             self.leg_fails_alone(ixn, ev.pre, ev.salt, ev.idx, cov, &mut out);
+        }
+        if out.is_empty() && ev.salt % 3 == 1 {
+            self.same_pool_twice(ixn, ev.pre, ev.idx, cov, &mut out);
         }
         let _: Option<IxView> = None;
         out
